@@ -33,7 +33,9 @@ RULE = ("root datasets of 5..40 events (three dyadic scalar columns with "
         "temporary feature / enable-filters / remove-invalid on a random "
         "level, grow, rejuvenate of the youngest; ranges are drawn around "
         "the data so that levels shrink, empty and refill and events drop "
-        "out and come back; a case is non-trivial when depth >= 2 is "
+        "out and come back; 45% of the cases are sliding-window scenarios "
+        "(a window of root events moves on a random level while events are "
+        "excluded on the levels below, and is opened again at the end); a case is non-trivial when depth >= 2 is "
         "reached, at least one manual exclusion was hidden and came back, "
         "and at least two different masks were seen on one level; distinct = "
         "different case dict")
@@ -105,6 +107,8 @@ def float2f(v):
 # generator
 # --------------------------------------------------------------------------
 def gen_case(rng, thorough=False, hazard=None):
+    if not hazard and rng.random() < 0.45:
+        return gen_scenario(rng, thorough)
     n = rng.choice([5, 6, 7, 8, 10, 12, 16, 24, 40]) if rng.random() < .8 \
         else rng.randint(5, 40)
     cols = []
@@ -169,6 +173,48 @@ def gen_case(rng, thorough=False, hazard=None):
             stale_from = None
     ops.append([3, 0, 0, 0, 0])
     return dict(n=n, cols=cols, extra=extra, hazard=bool(hazard), ops=ops)
+
+
+def gen_scenario(rng, thorough=False):
+    """Sliding windows: column 0 is the root index, so a range on it (on any
+    level) is a window of root events; exclusions are made on the levels
+    below the windowed one, the window moves away and comes back."""
+    n = rng.choice([6, 8, 10, 12, 16, 20])
+    cols = [[[0, i] for i in range(n)],
+            [[0, rng.randint(0, 12)] for _ in range(n)],
+            [[0, (i * 5) % 7] for i in range(n)]]
+    depth = rng.choice([2, 2, 3, 3, 4])
+    ops = [[6, 0, 0, 0, 0] for _ in range(depth)]
+    rounds = rng.randint(3, 7 if thorough else 5)
+    w = max(2, n // 2)
+    for _ in range(rounds):
+        wl = rng.randint(0, depth - 1)          # the windowed level
+        a = rng.randint(0, n - 1)
+        ops.append([0, wl, 0, a, min(n - 1, a + rng.randint(1, w))])
+        if rng.random() < 0.3:
+            ops.append([0, rng.randint(0, depth - 1), 1, rng.randint(0, 6),
+                        rng.randint(6, 12)])
+        ops.append([3, 0, 0, 0, 0])
+        for _ in range(rng.randint(1, 3)):
+            lvl = rng.randint(1, depth)
+            ops.append([1, lvl, rng.randint(0, 60),
+                        0 if rng.random() < 0.8 else 1, 0])
+        r = rng.random()
+        if r < 0.25:
+            ops.append([2, rng.randint(0, depth), rng.randint(0, 1),
+                        rng.randint(0, 50), 0])
+        elif r < 0.35:
+            ops.append([4, rng.randint(0, depth), rng.randint(0, 1), 0, 0])
+        if rng.random() < 0.5:
+            ops.append([3, 0, 0, 0, 0])
+    ops.append([3, 0, 0, 0, 0])
+    # finally open everything again: all hidden events come back
+    for lvl in range(depth):
+        ops.append([0, lvl, 0, -1, n + 1])
+        ops.append([4, lvl, 1, 0, 0])
+    ops.append([3, 0, 0, 0, 0])
+    return dict(n=n, cols=cols, extra=rng.choice([0, 0, 0, 1, 2]),
+                hazard=False, ops=ops)
 
 
 def gen_range(rng, lvl, cols):
